@@ -267,13 +267,25 @@ SORT_OF = {"leaf": "v", "dict": "t", "csv": "t", "arith": "v", "cmp": "v", "unar
            "dropna": "v", "isna": "v", "toObject": "v", "copy": "v", "vT": "v", "sortV": "v", "getitem": "v", "getV": "v",
            "setitem": "v", "lshift": "v", "rshift": "t", "rshiftDict": "t", "table": "t", "selCol": "v", "selCols": "t",
            "row": "v", "rowsel": "t", "rowV": "t", "tarith": "t", "transposeT": "t", "join": "t", "aggregate": "t",
-           "sortT": "t", "tabSet": "t"}
+           "sortT": "t", "tabSet": "t", "misc": "v"}
+
+# public operations without a dtype rule in the model: judged by the specification (truthfulness) alone
+MISC = {"unique": (lambda a: a.unique(), "{}.unique()"), "invert": (lambda a: ~a, "~{}"),
+        "eomonth": (lambda a: a.eomonth(), "{}.eomonth()"), "pluck0": (lambda a: a.pluck(0), "{}.pluck(0)"),
+        "pluckdef": (lambda a: a.pluck(1, default=0), "{}.pluck(1, default=0)"),
+        "upper": (lambda a: a.upper(), "{}.upper()"), "year": (lambda a: a.year, "{}.year"),
+        "bit_length": (lambda a: a.bit_length(), "{}.bit_length()"), "real": (lambda a: a.real, "{}.real"),
+        "is_integer": (lambda a: a.is_integer(), "{}.is_integer()"), "strip": (lambda a: a.strip(), "{}.strip()"),
+        "date": (lambda a: a.date(), "{}.date()"), "conjugate": (lambda a: a.conjugate(), "{}.conjugate()"),
+        "head": (lambda a: a.head(2), "{}.head(2)") , "tail": (lambda a: a.tail(2), "{}.tail(2)")}
 
 
 def kid_sorts(node):
     op = node["op"]
     if op in ("leaf", "dict", "csv"):
         return []
+    if op == "misc":
+        return [] if node["fn"] == "new" else ["v"]
     if op in ("arith", "cmp", "lshift"):
         return ["v", "v"] if node["form"] == "vv" else ["v"]
     if op in ("getV",):
@@ -390,8 +402,19 @@ class Runner:
                 raise Fail()       # zero-column CSV: boundary
             return ("csv", p, {}, lambda: read_csv(io.StringIO(text), has_header=header),
                     lambda v: f"read_csv(io.StringIO({text!r}), has_header={header})")
+        if op == "misc" and node["fn"] == "new":
+            dv, ln, ts = VALS[node["s"]], node["len"], node["typesafe"]
+            return ("opaque", {"fn": "new"}, {}, lambda: Vector.new(dv, ln, typesafe=ts),
+                    lambda v: f"Vector.new({VSRC[node['s']]}, {ln}, typesafe={ts})")
         a = objs[0]
         A = srcs[0]
+        if op == "misc":
+            if node["fn"] == "rlshift":
+                vals = [VALS[i] for i in node["l"]]
+                return ("opaque", {"fn": "rlshift"}, {}, lambda: vals << a,
+                        lambda v: "[" + ", ".join(VSRC[i] for i in node["l"]) + f"] << {A}")
+            f, fmt = MISC[node["fn"]]
+            return ("opaque", {"fn": node["fn"]}, {}, lambda: f(a), lambda v: fmt.format(A))
         if op in ("arith", "cmp"):
             form, fnname = node["form"], node["fn"]
             table = BIN if op == "arith" else CMP
@@ -735,7 +758,7 @@ def rand_table_leaf(rng, n):
     return {"op": "table", "kids": [rand_leaf(rng, n) for _ in range(k)]}
 
 
-VOPS = ["arith", "arith", "arith", "cmp", "unary", "cast", "fillna", "dropna", "isna", "toObject", "copy", "vT", "sortV",
+VOPS = ["misc", "misc", "arith", "arith", "arith", "cmp", "unary", "cast", "fillna", "dropna", "isna", "toObject", "copy", "vT", "sortV",
         "getitem", "getitem", "getV", "setitem", "setitem", "lshift", "selCol", "selCol", "row"]
 TOPS = ["rshift", "rshift", "rshiftDict", "table", "selCols", "rowsel", "rowsel", "rowV", "tarith", "tarith", "transposeT",
         "join", "join", "aggregate", "aggregate", "sortT", "tabSet"]
@@ -760,6 +783,13 @@ def build(rng, sort, depth, n):
         return node
     if op == "unary":
         return {"op": op, "fn": rng.choice(list(UN)), "kids": [sub("v")]}
+    if op == "misc":
+        r = rng.random()
+        if r < 0.15:
+            return {"op": op, "fn": "new", "s": rng.choice(SCALARS), "len": rng.choice([0, 1, n]), "typesafe": rng.random() < 0.5, "kids": []}
+        if r < 0.3:
+            return {"op": op, "fn": "rlshift", "l": vals(), "kids": [sub("v")]}
+        return {"op": op, "fn": rng.choice(list(MISC)), "kids": [sub("v")]}
     if op == "cast":
         return {"op": op, "to": rng.choice(list(CAST)), "kids": [sub("v")]}
     if op == "fillna":
@@ -958,6 +988,14 @@ def exhaustive_structural(tier):
                     one = lambda node: {"fam": "struct", "n": length, "tree": node}
                     for op in ("dropna", "isna", "toObject", "copy", "vT"):
                         yield one({"op": op, "kids": [a]})
+                    for fn in MISC:
+                        yield one({"op": "misc", "fn": fn, "kids": [a]})
+                    if name is None:
+                        for s in SCALARS:
+                            yield one({"op": "misc", "fn": "rlshift", "l": [s] * min(length, 2), "kids": [a]})
+                            if not n1 and k1 == kinds[0]:
+                                for ts in (False, True):
+                                    yield one({"op": "misc", "fn": "new", "s": s, "len": length, "typesafe": ts, "kids": []})
                     for to in CAST:
                         yield one({"op": "cast", "to": to, "kids": [a]})
                     for s in SCALARS:
